@@ -507,6 +507,7 @@ def get_rng_correspondence(ck, bct):
 
 def main():
     ck = Check(PID)
+    ck.never_ok_exempt = set(NOT_EXERCISED)      # unimplemented stubs: they raise on every call by construction (reasons above)
     ck.cov['rule'] = ('static: one RNG-effect skeleton per function with a `seed` parameter and per helper it calls, regenerated from the '
                       'source; dynamic: tasks = (seed-accepting public function, input flavour, int seed, prior history of np.random and '
                       'random, np.random.seed value for the unseeded clause); each task makes 6 calls of the real function; non-trivial = '
